@@ -11,3 +11,15 @@ var props = map[string]propCfg{
 		Assumptions: []string{"preemption happens at statement boundaries of the instrumented packages only", "blocked channel senders are served FIFO by the Go runtime", "real-time order is judged by the simulator's global event sequence numbers"},
 	},
 }
+
+func init() {
+	cacheReal := []string{"mocrelay.EventCache (Add/Find/Len, indexes, deletion registry)", "mocrelay.CacheHandler + SimpleHandler sessions (EVENT/REQ path, Dump/Restore)", "igrmk/treemap"}
+	cacheStub := []string{"clients (one scripted session actor)", "goroutine scheduler (cooperative; sequential history in this engine)"}
+	cacheRule := "rapid draws a capacity (1-16), a pool of 2-16 events over 3 authors x kinds {1,5,0,3,10002,30000,30001,20001,7} x created_at 1-6 (ties frequent) x d in {absent, empty, a, b:c} with e/a references to earlier and later events (3-element tags, dangling references), and an insertion history of up to 24 (quick) / 60 (thorough) operations, some through a CacheHandler session, with dump+restore into a fresh cache as a restart fault; after every insertion 1-3 filter lists (selective, non-selective, empty lists, limit 0/1/2/3, since/until) are evaluated. A run is non-trivial when at least two insertions were accepted and an eviction, replacement or deletion happened; distinct = distinct case hash."
+	props["C03"] = propCfg{Level: "exploration", QuickS: 30, ThoroughS: 480, Components: cacheReal, Stubs: cacheStub, Rule: cacheRule,
+		Assumptions: []string{"the retained set is what the match-everything query lists at that moment (as the property defines it)", "ties at a filter's cut-off timestamp may be resolved either way"}}
+	props["C04"] = propCfg{Level: "exploration", QuickS: 30, ThoroughS: 480, Components: cacheReal, Stubs: cacheStub, Rule: cacheRule,
+		Assumptions: []string{"equal-timestamp versions of one address: either verdict is accepted", "the reported flag for ephemeral events and for addressable events without d tag is not constrained"}}
+	props["C05"] = propCfg{Level: "exploration", QuickS: 30, ThoroughS: 480, Components: cacheReal, Stubs: cacheStub, Rule: cacheRule,
+		Assumptions: []string{"address references to replaceable events (kind:pubkey:) and to versions newer than the deletion request are left open (may)"}}
+}
